@@ -89,10 +89,11 @@ type vL18Worker struct {
 	gate    *vL18Gate
 	servers []*httptest.Server
 	hosts   []string
+	client  *http.Client
 }
 
 func vL18NewWorker() *vL18Worker {
-	wk := &vL18Worker{}
+	wk := &vL18Worker{client: &http.Client{CheckRedirect: neverRedirect, Transport: &http.Transport{MaxIdleConnsPerHost: 8}}}
 	for b := 0; b < 5; b++ {
 		b := b
 		srv := httptest.NewServer(http.HandlerFunc(func(w http.ResponseWriter, r *http.Request) {
@@ -199,7 +200,7 @@ func vL18Run(wk *vL18Worker, scn vL18Scenario) []map[string]interface{} {
 	}
 	h := &Handler{Cluster: cluster}
 	h.proxy = &proxy{Name: "arvados-controller"}
-	h.secureClient = &http.Client{CheckRedirect: neverRedirect, Transport: &http.Transport{}}
+	h.secureClient = wk.client // one client per worker: connections are kept alive across scenarios
 	h.insecureClient = h.secureClient
 	fellThrough := false
 	stack := h.setupProxyRemoteCluster(http.HandlerFunc(func(w http.ResponseWriter, r *http.Request) {
@@ -445,7 +446,6 @@ func vL18Run(wk *vL18Worker, scn vL18Scenario) []map[string]interface{} {
 	}
 finish:
 	cancelParent()
-	h.secureClient.CloseIdleConnections()
 	// abandoned calls end through their cancelled requests; wait for the handlers so that they do
 	// not run into the next scenario of this worker
 	for i := 0; i < 2000; i++ {
